@@ -16,7 +16,9 @@ TRUSTED = ["S-micro generators (typed tables + synthetic clipped/dyadic/null ran
 
 
 def decode(cv, x):
-    return (x - float(cv.scaler.min_[0])) / float(cv.scaler.scale_[0])
+    # plain Python floats throughout: `round(np.float64, n)` is numpy's rint(x * 10**n) / 10**n, which is not the correctly rounded
+    # `round(float, n)` the implementation applies (it converts with float() first) once x * 10**n exceeds 2**53
+    return (float(x) - float(cv.scaler.min_[0])) / float(cv.scaler.scale_[0])
 
 
 def oracle(ctx):
